@@ -208,8 +208,50 @@ def _mk(mod, alg, arch, kmname, root):
     return dec(f), calls
 
 
+def make_sibling(n):
+    """functions made by one factory share a code object and differ only in a default value"""
+    calls = []
+
+    def scaled(x, k=n):
+        calls.append(1)
+        return repr((x, k))
+    return scaled, calls
+
+
+def siblings_mode(phase, root, out):
+    """two sibling functions, each cached on its own persistent archive; the writing session touches them in one
+    order, the reading session in the other"""
+    import klepto
+    import klepto.safe
+    import klepto.archives as ka
+    import klepto.keymaps as km
+    for mod, alg in (('klepto', 'inf'), ('klepto', 'lru'), ('safe', 'mru')):
+        for kmname, mk in (('stringmap(flat=False)', lambda: km.stringmap(flat=False)), ('hashmap(md5)', lambda: km.hashmap(algorithm='md5'))):
+            order = (2, 3) if phase == 'write' else (3, 2)
+            for n in order:
+                f, calls = make_sibling(n)
+                name = os.path.join(root, 'sib_%s_%s_%d_%d' % (mod, alg, 0 if 'string' in kmname else 1, n))
+                a = ka.file_archive(name + '.pkl', cached=True)
+                m = klepto.safe if mod == 'safe' else klepto
+                kw = {'cache': a, 'keymap': mk()}
+                if alg != 'inf':
+                    kw['maxsize'] = 2
+                W = getattr(m, alg + '_cache')(**kw)(f)
+                results = []
+                for x in (10, 11):
+                    try:
+                        results.append(W(x))
+                    except Exception as e:
+                        results.append('EXC %s %s' % (type(e).__name__, str(e)[:80]))
+                if phase == 'write':
+                    W.dump()
+                out['%s.%s_cache file %s sibling(k=%d)' % (mod, alg, kmname, n)] = {'info': list(W.info()), 'evaluations': len(calls), 'results': results}
+
+
 def e2e_mode(phase, root, which='c17'):
     out = {}
+    if which == 'c17':
+        siblings_mode(phase, root, out)
     for cfg in e2e_configs(which):
         W, calls = _mk(*cfg, root=root)
         work = WORK if phase == 'write' else WORK_B
